@@ -213,8 +213,11 @@ void PolarGrid::initializeLineSplitting(std::optional<double> splitting_radius)
         if (number_smoother_circles_ < 3 && nr() > 5)
             number_smoother_circles_ = 3;
 
-        length_smoother_radial_    = nr() - number_smoother_circles_;
-        smoother_splitting_radius_ = radius(number_smoother_circles_);
+        length_smoother_radial_ = nr() - number_smoother_circles_;
+        /* A grid with exactly two radii consists of circles only: there is no radius(2). */
+        /* Same convention as the explicit split above when the splitting radius lies beyond the last radius. */
+        smoother_splitting_radius_ =
+            number_smoother_circles_ < nr() ? radius(number_smoother_circles_) : radii_.back() + 1.0;
     }
 
     number_circular_smoother_nodes_ = number_smoother_circles_ * ntheta();
